@@ -1,6 +1,6 @@
 (* C17 -- the refinement theorem: every operation of the level-1 model has the level-0 effect. *)
 From Coq Require Import List NArith ZArith Bool Lia.
-From Muscle Require Import Cont.StrL0 Cont.StrModel Cont.StrLemmas Cont.StrGrow Cont.StrCore Cont.StrOps Cont.StrL0Facts Cont.StrOps2 Cont.StrProd.
+From Muscle Require Import Cont.StrL0 Cont.StrModel Cont.StrLemmas Cont.StrGrow Cont.StrCore Cont.StrOps Cont.StrL0Facts Cont.StrDist Cont.StrOps2 Cont.StrProd.
 Import ListNotations.
 Local Open Scope N_scope.
 
@@ -24,7 +24,7 @@ Fixpoint args_ok (o : op) : Prop :=
   | OReplaceCh _ b _ _ | OWithReplCh _ b _ _ => b <> 0
   | OSwap _ l => nulfree l /\ lenN l < LIM
   | OUnflatten bytes => lenN bytes < LIM
-  | OArgInt z | OShiftInt z => lenN (dec_of_Z z) < LIM      (* true of every 64-bit integer: at most 20 characters *)
+  | OArgInt z | OShiftInt z => (- 9223372036854775808 <= z < 18446744073709551616)%Z      (* any 64-bit integer, signed or unsigned *)
   | OAssign o' => args_ok o'
   | _ => True
   end.
@@ -66,6 +66,32 @@ Proof.
   assert (X : nulfree ((48 + n mod 10) :: acc)) by (constructor; [intros E; apply N.eq_add_0 in E; destruct E; discriminate|exact H]).
   destruct (n / 10 =? 0); [exact X|now apply IH].
 Qed.
+(* the decimal text of a 64-bit integer is short (the fuel of [dec_fuel] bounds its length) *)
+Lemma lenN_dec_fuel f n acc : lenN (dec_fuel f n acc) <= N.of_nat f + lenN acc.
+Proof.
+  revert n acc. induction f as [|f IH]; intros n acc; cbn [dec_fuel]; [lia|].
+  destruct (n / 10 =? 0); [rewrite lenN_cons; lia|].
+  specialize (IH (n / 10) ((48 + n mod 10) :: acc)). rewrite lenN_cons in IH. lia.
+Qed.
+Lemma size_64 n : n < 18446744073709551616 -> N.size n <= 64.
+Proof.
+  intros H. pose proof (N.size_le n) as S.
+  destruct (N.le_gt_cases (N.size n) 64) as [L|G]; [exact L|].
+  assert (P : 2 ^ 65 <= 2 ^ N.size n) by (apply N.pow_le_mono_r; lia).
+  change (2 ^ 65) with 36893488147419103232 in P. rewrite N.succ_double_spec in S. lia.
+Qed.
+Lemma lenN_dec_of_Z z : (- 9223372036854775808 <= z < 18446744073709551616)%Z -> lenN (dec_of_Z z) < LIM.
+Proof.
+  intros H. unfold dec_of_Z, dec_of_N, LIM.
+  assert (B : forall n, n < 18446744073709551616 -> lenN (dec_fuel (S (N.to_nat (N.size n))) n []) <= 66).
+  { intros n Hn. pose proof (lenN_dec_fuel (S (N.to_nat (N.size n))) n []) as L. pose proof (size_64 n Hn).
+    rewrite lenN_nil in L. lia. }
+  destruct z as [|p|p].
+  - pose proof (B 0 ltac:(lia)). cbn [Z.to_N] in *. lia.
+  - pose proof (B (N.pos p) ltac:(lia)). cbn [Z.to_N] in *. lia.
+  - pose proof (B (N.pos p) ltac:(lia)). rewrite lenN_cons. lia.
+Qed.
+
 Lemma nulfree_dec_of_Z z : nulfree (dec_of_Z z).
 Proof.
   unfold dec_of_Z, dec_of_N. destruct z; try (apply nulfree_dec_fuel; constructor).
@@ -314,7 +340,7 @@ Proof.
     + eexists _, _. splits; trivial; try exact Logic.I.
   - (* operator<<(int) *)
     inversion H; subst. destruct (append_c_spec s (CLit (dec_of_Z z)) I F) as (I' & A').
-    { split; [apply nulfree_dec_of_Z|exact Ao]. }
+    { split; [apply nulfree_dec_of_Z|now apply lenN_dec_of_Z]. }
     { cbn [clit_of]. rewrite (lenN_abs s I) in Nd. exact Nd. }
     eexists _, _. splits; trivial; try exact Logic.I.
   - (* operator<<(bool) *)
@@ -327,6 +353,8 @@ Proof.
     pose proof (cstr_cregion s c I F Ao) as R. unfold StrModel.cbytes in H.
     destruct (StrModel.cregion M s c) as [r0|]; [rewrite R in H|subst c; cbn [clit_of]]; inversion H; subst;
       eexists _, _; splits; trivial; try exact Logic.I.
+  - (* GetDistanceTo: the early exit does not change the capped distance *)
+    inversion H; subst. rewrite distance_code_fixed, osrc_bytes. eexists _, _. splits; trivial; try exact Logic.I.
   - (* Flatten *)
     rewrite (flatten_spec s I) in H. inversion H; subst. eexists _, _. splits; trivial; try exact Logic.I.
 Qed.
@@ -394,7 +422,7 @@ Proof.
     + lia.
     + eexists; splits; [reflexivity|f_equal; exact A'|exact I'].
   - (* Arg(int) *)
-    destruct (arg_spec s (dec_of_Z z) Sb F (nulfree_dec_of_Z z) Ao) as (I' & A'); [lia|].
+    destruct (arg_spec s (dec_of_Z z) Sb F (nulfree_dec_of_Z z) (lenN_dec_of_Z z Ao)) as (I' & A'); [lia|].
     eexists; splits; [reflexivity|f_equal; exact A'|exact I'].
   - (* WithSuffix *)
     rewrite osrc_bytes. destruct (ends_with (abs s) (lit_of (abs s) a)).
